@@ -10,6 +10,7 @@ import ASV.Proofs.Parser.Tokeniser
 import ASV.Proofs.Parser.RulePP
 import ASV.Proofs.Parser.Alias
 import ASV.Proofs.Parser.SubstRule
+import ASV.Proofs.Parser.FuelTop
 namespace ASV.C02
 open ASV ASV.Rules ASV.Parser ASV.Grammar ASV.Layout
 
@@ -212,12 +213,45 @@ theorem alias_is_substitution (fuel : Nat) (cfg : Cfg) (s : PS) (hf : Flat s.ali
     RelS RuleRel (parseRuleWith fuel cfg (strip s)) (parseRuleWith fuel cfg s) :=
   parseRuleWith_rel hf fuel cfg
 
+/-- … and with the fuel the model computes on each side for itself (`PS.budget`), by
+    `fuel_irrelevant` and `fuel_enough_rule` -/
+theorem alias_is_substitution_rule (cfg : Cfg) (s : PS) (hf : Flat s.aliases) :
+    RelS RuleRel (parseRule cfg (strip s)) (parseRule cfg s) :=
+  parseRule_rel hf cfg
+
 /-- what `strip` is on the state a `Parser` starts a rule in: no aliases, input `t :: subst A rest` -/
 example (t : Tok) (rest : List Tok) (A : Aliases) (rules : List Rule) :
     strip { cur := some t, rest := rest, aliases := A, rules := rules } =
       { cur := some t, rest := subst A rest, aliases := [], rules := rules } := rfl
 
 example : Flat [] := ⟨by simp, by simp, by simp⟩
+
+/-! ### the model's fuel is never exhausted (the `fuel` error value is unreachable) -/
+
+/-- more fuel changes nothing but an "out of fuel": if `parseRuleWith n` returns anything else, so
+    does every `m ≥ n` (the same holds for every fuel-taking function: `blockMono`, `…_mono`) -/
+theorem fuel_irrelevant (n m : Nat) (h : n ≤ m) (cfg : Cfg) (s : PS)
+    (hne : parseRuleWith n cfg s ≠ .error .fuel) : parseRuleWith m cfg s = parseRuleWith n cfg s :=
+  (parseRuleWith_mono h cfg s).eq_of_ne hne
+
+/-- every recursive call consumes a token first: on an alias-free state with `p` unread tokens the
+    condition parser never runs out of fuel `3p + 3` (`blockNF` has the bound of each of the seven
+    mutually recursive functions) … -/
+theorem fuel_enough_conditions (n : Nat) (allowCds isGroup : Bool) (s : PS) (ha : s.aliases = [])
+    (hn : 3 * s.pending + 3 ≤ n) : parseConditions n allowCds isGroup s ≠ .error .fuel :=
+  (blockNF n).conds allowCds isGroup s s.pending ⟨ha, Nat.le_refl _⟩ hn
+
+/-- … nor does a whole rule on any state with a flat alias table with the fuel `_parse_rule`'s
+    model computes (`PS.budget` ≥ 3 · tokens after substitution + 3) … -/
+theorem fuel_enough_rule (cfg : Cfg) (s : PS) (hf : Flat s.aliases) : parseRule cfg s ≠ .error .fuel :=
+  parseRule_nf hf
+
+/-- … and so (3): `create_rules` never returns the model's `fuel` error, for any files, signature
+    names, categories and multipliers.  (Main loop: every iteration consumes a `RULE` or `DEFINE`
+    token, and alias definitions contain none.) -/
+theorem fuel_never_exhausted (cfg : Cfg) (files : List String) :
+    createRules cfg files [] [] ≠ .error .fuel :=
+  createRules_nf cfg files [] [] ⟨by simp, by simp, by simp⟩
 
 /-! ### non-vacuity: each listed class of ill-formed input on a concrete text -/
 
